@@ -1,1 +1,347 @@
-fn main(){}
+//! mc-wasm: bounded exhaustive exploration of Wasm programs on the real
+//! `concordium-wasm` engine against a reference validator/interpreter.
+//! Serves C01 (conformance), C02 (metering), C09 (validation/safety), C13 (reload and
+//! interrupts).
+
+mod ast;
+mod c09;
+mod check;
+mod cost;
+mod gen;
+mod ops;
+mod optable;
+mod real;
+mod refint;
+mod refval;
+
+use ast::*;
+use check::{Cfg, Prop, Stats};
+use gen::{AlphabetKind, Shape};
+use mc_core::{Cli, Report, Tier};
+use rayon::prelude::*;
+use refval::{FnCtx, VState};
+use serde_json::json;
+use std::time::{Duration, Instant};
+
+pub struct Space {
+    pub kind:    AlphabetKind,
+    pub shape:   Shape,
+    pub max_len: usize,
+}
+
+fn args_full() -> Vec<(i32, i32)> {
+    let v = [0, 1, -1, i32::MIN];
+    let mut out = vec![];
+    for a in v {
+        for b in v {
+            out.push((a, b));
+        }
+    }
+    out
+}
+
+fn args_small() -> Vec<(i32, i32)> { vec![(0, 0), (1, 0), (-1, 1), (i32::MIN, -1), (65532, 5)] }
+
+/// Enumerate every complete, reference-valid body of at most `max_len` instructions over
+/// the alphabet and call `f` on it. Deterministic partition over the rayon pool by the
+/// first two symbols. Returns (admissible prefixes visited, complete bodies).
+pub fn enumerate<F>(space: &Space, deadline: Option<Instant>, f: F) -> (u64, u64, bool)
+where
+    F: Fn(&[Instr], &mut Stats) + Sync, {
+    let alpha = gen::alphabet(space.kind, space.shape);
+    let module = gen::template(&[], space.shape, true);
+    let ctx = FnCtx::for_func(&module, 0, false);
+    let init = VState::new(&ctx);
+    // Level-wise expansion of the first `split` symbols: prefixes shorter than `split` are
+    // visited sequentially, prefixes of length `split` seed the parallel depth-first search.
+    let split = 2.min(space.max_len);
+    let mut shallow: Vec<(Vec<usize>, VState)> = vec![];
+    let mut level: Vec<(Vec<usize>, VState)> = vec![(vec![], init)];
+    for _ in 0..split {
+        let mut next = vec![];
+        for (w, s) in &level {
+            for (si, sym) in alpha.iter().enumerate() {
+                let mut s2 = s.clone();
+                if s2.step(&ctx, sym).is_ok() && !s2.done() {
+                    let mut w2 = w.clone();
+                    w2.push(si);
+                    next.push((w2, s2));
+                }
+            }
+        }
+        shallow.extend(level);
+        level = next;
+    }
+    let seeds: Vec<(Vec<usize>, VState)> = level;
+    let timed_out = std::sync::atomic::AtomicBool::new(false);
+    let visit = |w: &[usize], s: &VState, st: &mut Stats| -> bool {
+        // a prefix is a complete body iff the function's final `end` type-checks here
+        if s.depth() == 1 {
+            let mut s2 = s.clone();
+            if s2.step(&ctx, &Instr::End).is_ok() && s2.done() {
+                let body: Vec<Instr> = w.iter().map(|&i| alpha[i].clone()).collect();
+                f(&body, st);
+                return true;
+            }
+        }
+        false
+    };
+    // shallow prefixes (length < split) are handled sequentially
+    let mut st0 = Stats::default();
+    let mut prefixes = 0u64;
+    let mut complete = 0u64;
+    for (w, s) in &shallow {
+        prefixes += 1;
+        if visit(w, s, &mut st0) {
+            complete += 1;
+        }
+    }
+    let results: Vec<(u64, u64, Stats)> = seeds
+        .par_iter()
+        .map(|(w, s)| {
+            let mut st = Stats::default();
+            let mut prefixes = 0u64;
+            let mut complete = 0u64;
+            let mut word = w.clone();
+            fn go(
+                word: &mut Vec<usize>,
+                s: &VState,
+                alpha: &[Instr],
+                ctx: &FnCtx,
+                max_len: usize,
+                prefixes: &mut u64,
+                complete: &mut u64,
+                st: &mut Stats,
+                visit: &dyn Fn(&[usize], &VState, &mut Stats) -> bool,
+                deadline: Option<Instant>,
+                timed_out: &std::sync::atomic::AtomicBool,
+            ) {
+                *prefixes += 1;
+                if visit(word, s, st) {
+                    *complete += 1;
+                }
+                if word.len() >= max_len {
+                    return;
+                }
+                // open blocks need at least one `end` each
+                if s.depth() - 1 > max_len - word.len() {
+                    return;
+                }
+                if let Some(d) = deadline {
+                    if (*prefixes & 0xff) == 0 && Instant::now() > d {
+                        timed_out.store(true, std::sync::atomic::Ordering::Relaxed);
+                    }
+                    if timed_out.load(std::sync::atomic::Ordering::Relaxed) {
+                        return;
+                    }
+                }
+                for (si, sym) in alpha.iter().enumerate() {
+                    let mut s2 = s.clone();
+                    if s2.step(ctx, sym).is_ok() && !s2.done() {
+                        word.push(si);
+                        go(word, &s2, alpha, ctx, max_len, prefixes, complete, st, visit, deadline, timed_out);
+                        word.pop();
+                    }
+                }
+            }
+            go(&mut word, s, &alpha, &ctx, space.max_len, &mut prefixes, &mut complete, &mut st, &visit, deadline, &timed_out);
+            (prefixes, complete, st)
+        })
+        .collect();
+    let mut all = st0;
+    for (p, c, st) in results {
+        prefixes += p;
+        complete += c;
+        merge_stats(&mut all, st);
+    }
+    ALL_STATS.with(|a| merge_stats(&mut a.borrow_mut(), all));
+    (prefixes, complete, timed_out.load(std::sync::atomic::Ordering::Relaxed))
+}
+
+thread_local! {
+    static ALL_STATS: std::cell::RefCell<Stats> = std::cell::RefCell::new(Stats::default());
+}
+
+fn merge_stats(a: &mut Stats, b: Stats) {
+    a.programs += b.programs;
+    a.nontrivial += b.nontrivial;
+    a.runs += b.runs;
+    a.comparisons += b.comparisons;
+    a.long_programs += b.long_programs;
+    a.budget_runs += b.budget_runs;
+    a.schedules += b.schedules;
+    a.max_interrupts = a.max_interrupts.max(b.max_interrupts);
+    for (k, v) in b.outcomes {
+        *a.outcomes.entry(k).or_insert(0) += v;
+    }
+    for s in b.samples {
+        if a.samples.len() < 8 {
+            a.samples.push(s);
+        }
+    }
+}
+
+fn cfg_for(prop: Prop, tier: Tier) -> Cfg {
+    use real::{Build, VCfg, ALL_BUILDS};
+    let metered: Vec<Build> = ALL_BUILDS.iter().copied().filter(|b| b.metering.is_some()).collect();
+    match prop {
+        Prop::C01 => Cfg {
+            prop,
+            builds: ALL_BUILDS.to_vec(),
+            args: args_full(),
+            args_memory: args_small(),
+            builds_memory: vec![ALL_BUILDS[0], ALL_BUILDS[1], ALL_BUILDS[2]],
+            max_interrupt_calls: 0,
+        },
+        Prop::C02 => Cfg {
+            prop,
+            builds: metered.clone(),
+            args: if tier == Tier::Quick { args_small() } else { args_full() },
+            args_memory: vec![(0, 0), (1, 0), (-1, 1)],
+            builds_memory: vec![ALL_BUILDS[1], ALL_BUILDS[2]],
+            max_interrupt_calls: 0,
+        },
+        Prop::C13 => Cfg {
+            prop,
+            builds: vec![ALL_BUILDS[0], ALL_BUILDS[1], ALL_BUILDS[2]],
+            args: args_small(),
+            args_memory: vec![(0, 0), (1, 0), (-1, 1)],
+            builds_memory: vec![ALL_BUILDS[1], Build { vcfg: VCfg::V0, metering: None }],
+            max_interrupt_calls: if tier == Tier::Quick { 4 } else { 6 },
+        },
+    }
+}
+
+/// The search spaces per property and tier: (alphabet, shape, max body length).
+fn spaces(prop: Prop, tier: Tier) -> Vec<Space> {
+    let i32f = Shape { ret: Some(VT::I32), hosts: false };
+    let i64f = Shape { ret: Some(VT::I64), hosts: false };
+    let unitf = Shape { ret: None, hosts: false };
+    let hosts = Shape { ret: Some(VT::I32), hosts: true };
+    let q = tier == Tier::Quick;
+    match prop {
+        Prop::C01 => vec![
+            Space { kind: AlphabetKind::Core, shape: i32f, max_len: if q { 5 } else { 7 } },
+            Space { kind: AlphabetKind::Wide, shape: i32f, max_len: if q { 4 } else { 5 } },
+            Space { kind: AlphabetKind::Memory, shape: i32f, max_len: if q { 3 } else { 4 } },
+            Space { kind: AlphabetKind::Core, shape: unitf, max_len: if q { 4 } else { 6 } },
+            Space { kind: AlphabetKind::Wide, shape: i64f, max_len: if q { 3 } else { 5 } },
+            Space { kind: AlphabetKind::Hosts, shape: hosts, max_len: if q { 3 } else { 5 } },
+        ],
+        Prop::C02 => vec![
+            Space { kind: AlphabetKind::Core, shape: i32f, max_len: if q { 4 } else { 6 } },
+            Space { kind: AlphabetKind::Wide, shape: i32f, max_len: if q { 3 } else { 5 } },
+            Space { kind: AlphabetKind::Hosts, shape: hosts, max_len: if q { 4 } else { 5 } },
+            Space { kind: AlphabetKind::Memory, shape: i32f, max_len: if q { 3 } else { 4 } },
+            Space { kind: AlphabetKind::Core, shape: unitf, max_len: if q { 3 } else { 5 } },
+        ],
+        Prop::C13 => vec![
+            Space { kind: AlphabetKind::Hosts, shape: hosts, max_len: if q { 4 } else { 6 } },
+            Space { kind: AlphabetKind::Core, shape: i32f, max_len: if q { 4 } else { 6 } },
+            Space { kind: AlphabetKind::Wide, shape: i32f, max_len: if q { 3 } else { 4 } },
+            Space { kind: AlphabetKind::Memory, shape: i32f, max_len: if q { 3 } else { 4 } },
+        ],
+    }
+}
+
+fn run_program_property(cli: &Cli, prop: Prop) -> ! {
+    let report = Report::new(cli);
+    let cfg = cfg_for(prop, cli.tier);
+    if let Some(path) = &cli.replay {
+        let doc = mc_core::load_replay(path);
+        let (shape, body) = check::witness_parse(&doc["witness"]).unwrap_or_else(|| mc_core::machinery_error("replay file has no program witness"));
+        println!("replaying {} : {}", shape.name(), body_text(&body));
+        let mut st = Stats::default();
+        let ok = check::check_program(&cfg, &report, &mut st, shape, &body);
+        println!("replay verdict: {}", if ok { "property holds on this case" } else { "VIOLATION reproduced" });
+        st.merge_into(&report);
+        report.finish(false, json!("replay"));
+    }
+    self_test(&report, &cfg);
+    let cap = Duration::from_secs(match cli.tier {
+        Tier::Quick => 45,
+        Tier::Thorough => 25 * 60,
+    });
+    let start = Instant::now();
+    let mut bounds = vec![];
+    let mut states = 0u64;
+    let mut exhaustive = true;
+    for sp in spaces(prop, cli.tier) {
+        // iterate the bound: 0, 1, 2, ... so that a capped run still reports the last bound
+        // completed in full
+        let mut completed = None;
+        let mut last_counts = (0u64, 0u64);
+        for len in sp.max_len.saturating_sub(1)..=sp.max_len {
+            let remaining = cap.checked_sub(start.elapsed());
+            let Some(rem) = remaining else {
+                exhaustive = false;
+                break;
+            };
+            // the last bound of each space gets what is left; earlier ones are cheap
+            let deadline = Instant::now() + rem;
+            let space = Space { kind: sp.kind, shape: sp.shape, max_len: len };
+            ALL_STATS.with(|a| *a.borrow_mut() = Stats::default());
+            let (p, c, timed_out) = enumerate(&space, Some(deadline), |body, st| {
+                check::check_program(&cfg, &report, st, sp.shape, body);
+            });
+            eprintln!("[space {:?}/{} len {}] prefixes={} bodies={} elapsed={:.1}s", sp.kind, sp.shape.name(), len, p, c, start.elapsed().as_secs_f64());
+            if timed_out {
+                exhaustive = false;
+                report.cap_hit(&format!("wall-clock cap hit in space {:?}/{} at length {}", sp.kind, sp.shape.name(), len));
+                // the partial pass is still reported in the counters, but not as a completed bound
+                ALL_STATS.with(|a| a.borrow().merge_into(&report));
+                states += p;
+                break;
+            }
+            // only the largest completed pass contributes to the counters (smaller bounds are subsets)
+            completed = Some(len);
+            last_counts = (p, c);
+            if len == sp.max_len {
+                ALL_STATS.with(|a| a.borrow().merge_into(&report));
+                states += p;
+            }
+        }
+        bounds.push(json!({
+            "alphabet": format!("{:?}", sp.kind), "alphabet_size": gen::alphabet(sp.kind, sp.shape).len(),
+            "shape": sp.shape.name(), "max_body_len_target": sp.max_len, "max_body_len_completed": completed,
+            "admissible_prefixes": last_counts.0, "complete_bodies": last_counts.1,
+        }));
+    }
+    if prop == Prop::C01 {
+        optable::run(&report, cli.tier);
+    }
+    report.state(states);
+    report.set_technique("bounded exhaustive enumeration (stateless DFS over reference-validator states) of Wasm function bodies, each executed on the real engine and compared with a reference interpreter");
+    report.set_rule("every well-typed function body of at most max_body_len instructions over the listed alphabets, in a fixed module template, run on every argument tuple and build; a body is non-trivial if its reference outcomes over the argument tuples are not all equal");
+    report.assume("reference validator/interpreter/cost tables in /verif/engines/mc-wasm transcribe the Wasm 1.0 spec and the documented cost schedule correctly");
+    report.assume("stand-in crates num_enum/slab (see /verif/shims) behave like the originals for the uses in the repository");
+    report.assume("programs longer than the bound, constants outside the alphabet and deeper call graphs than the template are not covered");
+    report.set_extra("spaces", json!(bounds));
+    report.finish(exhaustive, json!(bounds));
+}
+
+/// Determinism self-test: the same recorded case run twice must give identical observations.
+fn self_test(report: &Report, cfg: &Cfg) {
+    let shape = Shape { ret: Some(VT::I32), hosts: false };
+    let body = vec![Instr::LocalGet(0), Instr::LocalGet(1), Instr::Num(0x6B)];
+    let quiet = Report::new(&Cli { property: format!("{}-selftest", report.property), tier: report.tier, replay: None, seed: 0, extra: Default::default() });
+    let mut s1 = Stats::default();
+    let mut s2 = Stats::default();
+    let ok1 = check::check_program(cfg, &quiet, &mut s1, shape, &body);
+    let ok2 = check::check_program(cfg, &quiet, &mut s2, shape, &body);
+    if !ok1 || !ok2 || s1.runs != s2.runs || s1.outcomes != s2.outcomes {
+        mc_core::machinery_error("determinism self-test failed: `local.get 0; local.get 1; i32.sub` does not behave reproducibly");
+    }
+}
+
+fn main() {
+    let cli = mc_core::parse_cli();
+    mc_core::quiet_panics();
+    match cli.property.as_str() {
+        "C01" => run_program_property(&cli, Prop::C01),
+        "C02" => run_program_property(&cli, Prop::C02),
+        "C13" => run_program_property(&cli, Prop::C13),
+        "C09" => c09::run(&cli),
+        other => mc_core::machinery_error(&format!("mc-wasm does not serve property {other}")),
+    }
+}
